@@ -117,3 +117,130 @@ Proof.
   destruct (requested_manifest_perm H f at_ o o' _ _ S P) as (k & c & l & sj & a & -> & ->).
   now apply json_manifest_perm.
 Qed.
+
+(* ---------- what is read back from an encoded string is exactly its UTF-8 coercion ---------- *)
+Lemma unesc_raw c t : 128 <= c -> json_unesc (c :: t) = option_map (cons c) (json_unesc t).
+Proof.
+  intro G. simpl.
+  assert (E1 : (c =? 92) = false) by (apply N.eqb_neq; lia).
+  assert (E2 : (c =? 34) = false) by (apply N.eqb_neq; lia).
+  assert (E3 : (c <? 32) = false) by (apply N.ltb_ge; lia).
+  now rewrite E1, E2, E3.
+Qed.
+
+Lemma unesc_fffd t : json_unesc (esc_fffd ++ t) = option_map (app ufffd) (json_unesc t).
+Proof. reflexivity. Qed.
+
+Lemma unesc_2028 b2 t :
+  b2 = 168 \/ b2 = 169 ->
+  json_unesc (esc_2028 b2 ++ t) = option_map (app [226; 128; b2]) (json_unesc t).
+Proof. intros [-> | ->]; reflexivity. Qed.
+
+Lemma unhex_hex_digit n : n < 16 -> unhex (hex_digit n) = Some n.
+Proof.
+  intro L. unfold hex_digit, unhex, in_rng.
+  destruct (n <? 10) eqn:A.
+  - apply N.ltb_lt in A.
+    assert (E : (48 <=? 48 + n) && (48 + n <=? 57) = true)
+      by (apply andb_true_iff; split; apply N.leb_le; lia).
+    rewrite E. f_equal. lia.
+  - apply N.ltb_ge in A.
+    assert (E0 : (48 <=? 87 + n) && (87 + n <=? 57) = false)
+      by (apply andb_false_iff; right; apply N.leb_gt; lia).
+    assert (E : (97 <=? 87 + n) && (87 + n <=? 102) = true)
+      by (apply andb_true_iff; split; apply N.leb_le; lia).
+    rewrite E0, E. f_equal. lia.
+Qed.
+
+Lemma unesc_u00 c t : c < 128 -> json_unesc (esc_u00 c ++ t) = option_map (cons c) (json_unesc t).
+Proof.
+  intro L. unfold esc_u00. cbn [app json_unesc N.eqb Pos.eqb].
+  change (unhex 48) with (Some 0).
+  rewrite (unhex_hex_digit (c / 16)) by (apply N.div_lt_upper_bound; lia).
+  rewrite (unhex_hex_digit (c mod 16)) by (apply N.mod_lt; lia).
+  assert (E : ((0 * 16 + 0) * 16 + c / 16) * 16 + c mod 16 = c).
+  { rewrite (N.div_mod c 16) at 3 by lia. lia. }
+  rewrite E. unfold utf8_enc. apply N.ltb_lt in L. now rewrite L.
+Qed.
+
+Lemma unesc_ascii c t : c < 128 -> json_unesc (esc_ascii c ++ t) = option_map (cons c) (json_unesc t).
+Proof.
+  intro L. unfold esc_ascii.
+  destruct ((c =? 34) || (c =? 92)) eqn:Q.
+  { apply orb_true_iff in Q as [Q | Q]; apply N.eqb_eq in Q; subst; reflexivity. }
+  apply orb_false_iff in Q as [Q1 Q2].
+  destruct (c =? 8) eqn:E8; [apply N.eqb_eq in E8; subst; reflexivity|].
+  destruct (c =? 12) eqn:E12; [apply N.eqb_eq in E12; subst; reflexivity|].
+  destruct (c =? 10) eqn:E10; [apply N.eqb_eq in E10; subst; reflexivity|].
+  destruct (c =? 13) eqn:E13; [apply N.eqb_eq in E13; subst; reflexivity|].
+  destruct (c =? 9) eqn:E9; [apply N.eqb_eq in E9; subst; reflexivity|].
+  destruct ((c <? 32) || (c =? 60) || (c =? 62) || (c =? 38)) eqn:U; [now apply unesc_u00|].
+  apply orb_false_iff in U as [U _]. apply orb_false_iff in U as [U _]. apply orb_false_iff in U as [U _].
+  simpl. now rewrite Q2, Q1, U.
+Qed.
+
+Lemma cont_ge c : utf8_cont c = true -> 128 <= c.
+Proof. unfold utf8_cont, in_rng. intro E. apply andb_true_iff in E as [E _]. now apply N.leb_le in E. Qed.
+
+Lemma three_ge b0 b1 : utf8_three b0 b1 = true -> 128 <= b1.
+Proof.
+  unfold utf8_three, utf8_cont, in_rng.
+  rewrite !orb_true_iff, !andb_true_iff, !N.leb_le, !N.eqb_eq. lia.
+Qed.
+
+Lemma four_ge b0 b1 : utf8_four b0 b1 = true -> 128 <= b1.
+Proof.
+  unfold utf8_four, utf8_cont, in_rng.
+  rewrite !orb_true_iff, !andb_true_iff, !N.leb_le, !N.eqb_eq. lia.
+Qed.
+
+Lemma unesc_esc_n n : forall s, (length s <= n)%nat -> json_unesc (json_esc s) = Some (utf8_san s).
+Proof.
+  induction n as [|n IH]; intros s L.
+  { destruct s; [reflexivity | simpl in L; lia]. }
+  destruct s as [|b0 r1]; [reflexivity|].
+  assert (IH1 : json_unesc (json_esc r1) = Some (utf8_san r1)) by (apply IH; simpl in L; lia).
+  cbn [json_esc utf8_san].
+  destruct (b0 <? 128) eqn:A.
+  { apply N.ltb_lt in A. now rewrite unesc_ascii, IH1. }
+  apply N.ltb_ge in A.
+  destruct r1 as [|b1 r2]; [reflexivity|].
+  assert (IH2 : json_unesc (json_esc r2) = Some (utf8_san r2)) by (apply IH; simpl in L; lia).
+  destruct (in_rng 194 223 b0 && utf8_cont b1) eqn:B.
+  { apply andb_true_iff in B as [_ B]. apply cont_ge in B.
+    now rewrite (unesc_raw b0) by lia; rewrite (unesc_raw b1) by lia; rewrite IH2. }
+  destruct r2 as [|b2 r3]; [now rewrite unesc_fffd, IH1|].
+  assert (IH3 : json_unesc (json_esc r3) = Some (utf8_san r3)) by (apply IH; simpl in L; lia).
+  destruct (utf8_three b0 b1 && utf8_cont b2) eqn:C.
+  { apply andb_true_iff in C as [C1 C2]. apply three_ge in C1. apply cont_ge in C2.
+    destruct ((b0 =? 226) && (b1 =? 128) && ((b2 =? 168) || (b2 =? 169))) eqn:S.
+    - apply andb_true_iff in S as [S S3]. apply andb_true_iff in S as [S1 S2].
+      apply N.eqb_eq in S1, S2. subst b0 b1.
+      rewrite unesc_2028, IH3; [reflexivity|].
+      apply orb_true_iff in S3 as [S3 | S3]; apply N.eqb_eq in S3; auto.
+    - now rewrite (unesc_raw b0) by lia; rewrite (unesc_raw b1) by lia; rewrite (unesc_raw b2) by lia; rewrite IH3. }
+  destruct r3 as [|b3 r4]; [now rewrite unesc_fffd, IH1|].
+  assert (IH4 : json_unesc (json_esc r4) = Some (utf8_san r4)) by (apply IH; simpl in L; lia).
+  destruct (utf8_four b0 b1 && utf8_cont b2 && utf8_cont b3) eqn:D.
+  { apply andb_true_iff in D as [D D3]. apply andb_true_iff in D as [D1 D2].
+    apply four_ge in D1. apply cont_ge in D2, D3.
+    now rewrite (unesc_raw b0) by lia; rewrite (unesc_raw b1) by lia; rewrite (unesc_raw b2) by lia;
+      rewrite (unesc_raw b3) by lia; rewrite IH4. }
+  now rewrite unesc_fffd, IH1.
+Qed.
+
+(* json.Marshal then Unmarshal of a Go string gives its UTF-8 coercion: for strings, the premise
+   json_roundtrip of C19_stored_parses is a theorem *)
+Theorem json_string_roundtrip s : json_unesc (json_esc s) = Some (utf8_san s).
+Proof. apply (unesc_esc_n (length s)). lia. Qed.
+
+Corollary json_string_roundtrip_clean s : utf8_san s = s -> json_unesc (json_esc s) = Some s.
+Proof. intro C. now rewrite json_string_roundtrip, C. Qed.
+
+(* distinct clean strings have distinct encodings *)
+Corollary json_esc_injective_clean s t :
+  utf8_san s = s -> utf8_san t = t -> json_esc s = json_esc t -> s = t.
+Proof.
+  intros Cs Ct E. pose proof (json_string_roundtrip_clean s Cs) as A.
+  rewrite E, (json_string_roundtrip_clean t Ct) in A. congruence.
+Qed.
